@@ -35,8 +35,8 @@ def _val(v, form):
 
 
 QUICK = ["ab/explicit", "at/explicit", "abc/explicit", "abt/explicit", "abc/generated", "abc/root", "diamond/explicit",
-         "diamond/generated", "fixed/abc", "abk1k0/explicit", "mix3/abtn/explicit", "wide/1", "illdef/x"]
-QUICK_OVR = [("ovr2", "abc/explicit"), ("ovr1", "diamond/explicit"), ("ovr1", "abc/generated")]
+         "diamond/generated", "fixed/abc", "abk1k0/explicit", "mix3/abtn/explicit", "wide/1", "illdef/x", "alt/mix3b+abt+explicit"]
+QUICK_OVR = [("ovr2", "abc/explicit"), ("ovr1", "diamond/explicit"), ("ovr1", "abc/generated"), ("ovr1", "fixed/ab")]
 THOROUGH = QUICK + ["abct/explicit", "abcdt/explicit", "abu/explicit/w3", "abt/explicit/w3", "d3/abc/explicit", "d3/abt/generated", "fixed/abt",
                     "abtn/explicit", "abt/generated", "abt/root"]
 THOROUGH_OVR = [("ovr2", "abc/explicit"), ("ovr2", "diamond/explicit"), ("ovr2", "abc/generated"), ("ovr2", "abt/explicit"),
@@ -125,8 +125,9 @@ def check_model(m, acc, mode, fam, k, only_alpha=None, only_ovr=None, only_form=
     if mode == "plain":
         ovr_sets = [()]
     else:
-        # overrides: any <=2 compound nodes (top included) with a constant, not contradicting constant construction bounds
-        cand = [c for c in comps if not (c[5] is not None and c[5][0] == c[5][1])]
+        # overrides: any <=2 compound nodes (top included) with a constant; a node pre-fixed by its construction bounds may be given
+        # either constant - the interpretation wins (evaluate is assume, which "returns a new proposition with these new bounds set")
+        cand = list(comps)
         ovr_sets = []
         for r in ((1, 2) if mode == "ovr2" else (1,)):
             for nodes in itertools.combinations(cand, r):
